@@ -65,6 +65,11 @@ func validCP(cp string, p core.ProtocolID) bool {
 	case core.PROTOCOL_CCTP, core.PROTOCOL_HYPERLANE:
 		return canonicalU32(cp)
 	case core.PROTOCOL_INTERNAL:
+		for i := 0; i < len(cp); i++ {
+			if cp[i] == 0 {
+				return false // not usable as a store key component
+			}
+		}
 		return true
 	case core.PROTOCOL_IBC:
 		return core.ValidateCounterpartyID(cp, p) == nil // channel-N syntax is ibc-go's
